@@ -226,8 +226,10 @@ func gen(r *core.Rand, tier string) core.Case {
 	return core.Case{Tag: tag, Lines: append([]string{h.String()}, lines...)}
 }
 
+const raceMix = "go build -race; three shared rings NewSync[[2]int](2|3|4), on EACH: 3 goroutines Push, 4 goroutines Pop, 1 IsFull, 1 IsEmpty, 1 Len+Cap, 1 PushWait(0)/PopWait(0)/PopWait(1ms); plus 2 goroutines each owning three private rings (cap 2/4/8) used alternately and checked against their own FIFO models"
+
 var raceExtra = core.Extra{
-	Name: "race-detector stress of the unmodified ringz package (real scheduler)",
+	Name: "race-detector stress of the unmodified ringz package (real scheduler), every method concurrently",
 	Run: func(ctx *core.Ctx) (int, string, []core.ExtraFailure) {
 		ms := 2500
 		if ctx.Tier == "thorough" {
@@ -246,9 +248,14 @@ var raceExtra = core.Extra{
 		if races != "" {
 			return 1, sum, []core.ExtraFailure{{
 				Failure: core.Failure{Key: "data-race", Desc: "the Go race detector reports a data race in SyncRing under concurrent Push/Pop/Len/IsEmpty/IsFull"},
-				Payload: map[string]any{"program": "go/internal/sched/racestress ring", "report": strings.Split(races, "\n")}}}
+				Payload: map[string]any{"program": "go/internal/sched/racestress ring", "goroutine_mix": raceMix, "report": strings.Split(races, "\n")}}}
 		}
-		if strings.Contains(sum, "torn-or-out-of-range=") && !strings.Contains(sum, "torn-or-out-of-range=0") {
+		if strings.Contains(sum, "confined-mismatch=") && !strings.Contains(sum, "confined-mismatch=0") {
+			return 1, sum, []core.ExtraFailure{{
+				Failure: core.Failure{Key: "confined-rings-interfere", Desc: "rings owned by ONE goroutine and used alternately (never shared) deviate from their own bounded-FIFO models while other rings are hammered concurrently: " + sum},
+				Payload: map[string]any{"program": "go/internal/sched/racestress ring", "goroutine_mix": raceMix, "summary": sum}}}
+		}
+		if strings.Contains(sum, "torn-or-out-of-range=") && !strings.Contains(sum, "torn-or-out-of-range=0 ") {
 			return 1, sum, []core.ExtraFailure{{
 				Failure: core.Failure{Key: "stress-torn-value", Desc: "under the real scheduler a popped value was torn or Len() left [0,Cap()]: " + sum},
 				Payload: sum}}
